@@ -129,3 +129,60 @@ Theorem C10_source_shape_tie :
                       codes "np.abs(1 - sigma) <= ALPHA_EPSILON or (alpha_max - alpha_min) <= 1e-6";
                       codes "sigma > 1"].
 Proof. exact source_shape_tie. Qed.
+
+(* ====================================================================== *)
+(* Float-level theorems about the binary32 mirror `native32` itself        *)
+(* (proofs/SolverFloat.v, through Flocq's IEEE754.BinarySingleNaN: the     *)
+(* SpecFloat operations of the mirror are the B2SF images of Flocq's       *)
+(* Bplus/Bminus/Bmult/Bdiv).  They use Coq's Reals (B2R / SF2R), so        *)
+(* `Print Assumptions` lists the standard Reals axioms                     *)
+(* (sig_forall_dec, sig_not_dec, functional_extensionality_dep) and        *)
+(* Classical_Prop.classic - nothing else.                                  *)
+(* Hyp32 lam pi q: equal lengths, pi non-empty, every input a valid finite *)
+(* binary32 with 2^-14 <= lam <= 2^10, 2^-20 <= pi_i <= 1, -1 <= q_i <= 1  *)
+(* (the regime of the property: priors >= 1e-6 > 2^-20, multipliers        *)
+(* >= 0.5/4573 > 2^-14).                                                   *)
+(* ====================================================================== *)
+From Coq Require Import Reals.
+From Coq Require Import Floats.SpecFloat.
+From Flocq Require Import Core BinarySingleNaN.
+From TV Require Import proofs.SolverFloat.
+Open Scope R_scope.
+
+(* the alpha that is returned (the proof maintains this for every probe, alpha_min and alpha_max of the
+   run) is a valid finite float, not below any q_i and at most 2^11: rounding is monotone, so
+   q_i (+) lam (x) pi_i >= q_i, and the computed midpoint of two floats lies between them *)
+Theorem C10_native32_alpha_ge_qmax : forall lam pi q k a w,
+  Hyp32 lam pi q -> native32 lam pi q = Returned k a w ->
+  valid_binary 24 128 a = true /\ is_finite_SF a = true /\
+  Forall (fun qi => SF2R radix2 qi <= SF2R radix2 a) q /\ SF2R radix2 a <= bpow radix2 11.
+Proof. exact native32_alpha_ge_qmax. Qed.
+
+(* clause "non-negative weights" at float level: every returned weight is +inf or a finite float with sign
+   bit 0 - never negative, never -0, never NaN *)
+Theorem C10_native32_weights_nonneg_or_inf : forall lam pi q k a w,
+  Hyp32 lam pi q -> native32 lam pi q = Returned k a w ->
+  Forall (fun x => x = S754_infinity false \/ (is_finite_SF x = true /\ sign_SF x = false)) w.
+Proof. exact native32_weights_nonneg_or_inf. Qed.
+
+(* the repair of commit 189f772 is sound: alpha_max starts finite and STRICTLY above every q_i and the weights
+   evaluated there are finite with sign bit 0 *)
+Theorem C10_native32_fallback_finite : forall lam pi q,
+  Hyp32 lam pi q ->
+  let hi := snd (bracket B32 lam pi q) in
+  is_finite_SF hi = true /\ Forall (fun qi => SF2R radix2 qi < SF2R radix2 hi) q /\
+  Forall (fun x => valid_binary 24 128 x = true /\ is_finite_SF x = true /\ sign_SF x = false)
+         (weights B32 lam pi q hi).
+Proof. exact native32_fallback_finite. Qed.
+
+(* clause "finite non-negative weights ... for a single alpha above every q", at float level, for EVERY exit
+   of the loop: whenever native32 returns, alpha is finite and STRICTLY above every q_i, the weights are
+   lam (x) pi_i (/) (alpha (-) q_i) and each is a finite float with sign bit 0 (F3 cannot recur).
+   PARTIAL: termination (that OutOfIters is not the outcome) and the value of the sum are not claimed here;
+   they rest on the correspondence and the sweep. *)
+Theorem C10_native32_returns_finite_partial : forall lam pi q k a w,
+  Hyp32 lam pi q -> native32 lam pi q = Returned k a w ->
+  is_finite_SF a = true /\ Forall (fun qi => SF2R radix2 qi < SF2R radix2 a) q /\
+  w = weights B32 lam pi q a /\
+  Forall (fun x => valid_binary 24 128 x = true /\ is_finite_SF x = true /\ sign_SF x = false) w.
+Proof. exact native32_returns_finite_partial. Qed.
